@@ -47,6 +47,7 @@ def run(prog, tier, extra=None):
     R4 = res.rule("C19.sub-without-removal", "every path that subtracts from the balance removes a slip from the unspent list", floor=2)
     R6 = res.rule("C19.ordinal", "the transaction ordinal the wallet records for a slip is a counter that a placeholder advances by txs_replacements", floor=1)
     R5 = res.rule("C19.reserve-then-fail", "after Wallet::generate_slips reserved slips no caller returns an error (nothing would be pending for them)", floor=2)
+    R7 = res.rule("C19.slip-cap", "the transaction builders stop adding inputs/outputs at the count Transaction::validate still accepts", floor=2)
     R2 = res.rule("C19.private", "available_balance is written only inside impl Wallet (the field is private)", floor=1)
     fa = FieldAnalysis(prog)
     for b in prog.all_bodies():
@@ -248,6 +249,69 @@ def run(prog, tier, extra=None):
                                 "unspent list although no transaction spends them" % b.path.split("::", 3)[-1].replace("::{closure#0}", ""), b.loc(path[-1]), {"path": _dp(b, path)}))
     if n_gs == 0:
         res.add(Finding(R5, "C19.reserve-then-fail|anchors", "no caller of Wallet::generate_slips found (anchor moved?)", None))
+
+    # R7: "transactions the wallet builds ... validate against the ledger they were built on": the wallet's builders add slips through
+    # Transaction::add_from_slip / add_to_slip, which silently stop at a cap. Transaction::validate refuses more than K inputs/outputs
+    # (`len > K -> false`); the cap (`len < B` before the push allows B afterwards, `len <= B` allows B + 1) must not exceed K, or a
+    # payment to many recipients is signed, its inputs leave the wallet, and no ledger will ever accept it.
+    from .. import gate as _g7
+    from ..linear import Linearizer as _Lz7
+    from ..expr import call_name as _cn7
+    from ..paths import Explorer as _Ex7
+    TXP7 = "saito_core::core::consensus::transaction::Transaction::"
+    tv7 = prog.body(TXP7 + "validate")
+    if tv7 is None:
+        raise LookupError("Transaction::validate not found")
+    chv7 = Chaser(tv7)
+    lzv7 = _Lz7(tv7, chv7, prog)
+
+    def len_of(fld):
+        def pred(a, b):
+            return has_field(a, "transaction::Transaction", fld) and any(x[0] == "len" or (x[0] in ("call", "via") and x[1].rsplit("::", 1)[-1] == "len") for x in walk(a)) \
+                and not has_field(b, "transaction::Transaction", fld)
+        return pred
+    for fld, adder in (("from", "add_from_slip"), ("to", "add_to_slip")):
+        res.instance(R7)
+        ab = prog.body(TXP7 + adder)
+        if ab is None:
+            res.not_decided.append("C19.slip-cap: Transaction::%s not found" % adder)
+            continue
+        accepted = None
+        for c in _g7.order_edges(tv7, chv7, len_of(fld)):
+            k = lzv7.lin(c["b"])
+            if k is not None and k.is_const() and c["op"] in ("Gt", "Ge"):
+                # only a test whose true edge can no longer reach an accepting return is a cap (`to.len() >= 3` of bound transactions is not)
+                if any(_Ex7(tv7).explore(tgt, accept=_g7.make_accept(tv7, return_true=True)) for (_, tgt) in c["true_edges"]):
+                    continue
+                lim = int(k.c) if c["op"] == "Gt" else int(k.c) - 1
+                accepted = lim if accepted is None else min(accepted, lim)
+        cha = Chaser(ab)
+        lza = _Lz7(ab, cha, prog)
+        pushes = {bb for bb, t in ab.calls() if (_cn7(t) or "").rsplit("::", 1)[-1] in ("push", "insert", "extend", "push_within_capacity")}
+        cap = None
+        guards = set()
+        for c in _g7.order_edges(ab, cha, len_of(fld)):
+            k = lza.lin(c["b"])
+            if k is None or not k.is_const():
+                continue
+            if c["op"] in ("Lt", "Le"):
+                after = int(k.c) if c["op"] == "Lt" else int(k.c) + 1
+                guards |= c["true_edges"]
+            else:
+                after = int(k.c) + 1 if c["op"] == "Gt" else int(k.c)       # push on the false edge of `len > K` / `len >= K`
+                guards |= c["false_edges"]
+            cap = after if cap is None else max(cap, after)
+        unguarded = pushes and ab.reachable(0, deleted_edges=guards) & pushes
+        if accepted is None or not pushes:
+            res.not_decided.append("C19.slip-cap: limit of Transaction.%s in validate / push in %s not recognised" % (fld, adder))
+        elif unguarded or cap is None:
+            res.add(Finding(R7, "C19.slip-cap|%s|unbounded" % fld, "Transaction::%s can push without a length test although Transaction::validate accepts at most %d" % (adder, accepted), ab.loc(sorted(pushes)[0])))
+        elif cap > accepted:
+            res.add(Finding(R7, "C19.slip-cap|%s" % fld, "Transaction::%s lets a transaction grow to %d %s, Transaction::validate (and the wire format) accept at most %d: a wallet "
+                            "payment to that many recipients is signed and its inputs reserved, but can never confirm" % (adder, cap, "inputs" if fld == "from" else "outputs", accepted),
+                            ab.loc(sorted(pushes)[0])))
+        else:
+            res.sample({"rule": R7, "builder": adder, "cap_after_push": cap, "validator_accepts": accepted})
     res.explanation = (
         "Decides the structural clause that the balance and the unspent list move together: every body that inserts into / removes from / clears "
         "Wallet.unspent_slips also adds to / subtracts from / zeroes available_balance and vice versa, and nothing outside impl Wallet can write the balance. "
